@@ -477,7 +477,12 @@ func buildC08(cfg *mon.Config) []*mon.Sub {
 				for _, n := range c08Names {
 					k := 3 + r.Intn(6)
 					args := make([]Val, k)
+					intlike := []Val{vInt(0), vInt(1), vInt(2), vInt(7), vInt(12), vInt(28), vInt(59), vInt(1975), vInt(2024), vLong(1), vLong(3), vLong(30), vLong(999), vLong(2000)}
 					for j := range args {
+						if (strings.EqualFold(n, "TimeSpan") || strings.EqualFold(n, "Date")) && r.Chance(4, 5) {
+							args[j] = mon.Pick(r, intlike) // plausible components, Integer and Long mixed
+							continue
+						}
 						switch r.Intn(4) {
 						case 0:
 							args[j] = mon.Pick(r, pool)
